@@ -451,6 +451,14 @@ class Check:
         self.infra = []
         self.kf = load_known_findings(pid)
         self._distinct = set()
+        # replay files of earlier runs of this property are stale
+        if os.path.isdir(REPLAYS):
+            for f in os.listdir(REPLAYS):
+                if f.startswith(pid + "-"):
+                    try:
+                        os.unlink(os.path.join(REPLAYS, f))
+                    except OSError:
+                        pass
 
     # -- model side
     def add_tlc(self, name, res, note=""):
@@ -497,7 +505,14 @@ class Check:
         os.makedirs(EVID, exist_ok=True)
         os.makedirs(REPLAYS, exist_ok=True)
         vio_out = []
-        for i, (key, what, replay) in enumerate(self.violations[:20]):
+        # at most 30 replay files, distinct signatures first
+        ordered, seen_keys = [], set()
+        for v in self.violations:
+            if v[0] not in seen_keys:
+                seen_keys.add(v[0])
+                ordered.append(v)
+        ordered += [v for v in self.violations if v not in ordered][:max(0, 30 - len(ordered))]
+        for i, (key, what, replay) in enumerate(ordered[:60]):
             rp = os.path.join(REPLAYS, "%s-%s-%d.json" % (self.pid, sha(key), i))
             json.dump({"property": self.pid, "key": key, "what": what, "replay": replay, "tier": self.tier,
                        "seed": self.seed}, open(rp, "w"), indent=1, default=str)
